@@ -75,6 +75,9 @@ func (d *DBFT[H]) addTransaction(tx Transaction[H]) {
 func (d *DBFT[H]) Start(ts uint64) {
 	d.cache = newCache[H]()
 	d.initializeConsensus(0, ts)
+	if d.Context.WatchOnly() {
+		return
+	}
 	if d.IsPrimary() {
 		d.sendPrepareRequest(true)
 	}
